@@ -191,6 +191,23 @@ class C13:
                     if removed & cur_keys or not added <= cur_keys or added & removed:
                         v = ("delta_vs_value", "t=%d consumer %d: added %s removed %s inconsistent with the value %s" % (t, c, sorted(added), sorted(removed), sorted(cur_keys)))
                         break
+                    # relational: what the consumer held before + this tick's delta = what it reads now (on a retarget the delta
+                    # is the difference between the old and the new target's contents, every live entry sampled as modified)
+                    d = ci.get("d")
+                    if pv is not None and isinstance(d, dict):
+                        try:
+                            rep = oc.model_norm(shape, coll.apply(shape, copy.deepcopy(pv), d))
+                        except Exception as ex:
+                            rep = "cannot be applied: %s" % ex
+                        if not isinstance(rep, str) and oc.strip_empty(rep) != oc.strip_empty(got) or isinstance(rep, str):
+                            v = ("value_is_prev_plus_delta", "t=%d consumer %d%s: previous view %s + delta %s gives %s but the value reads %s" % (
+                                t, c, " (retarget)" if retarget else "", pv, json.dumps(d), rep, got))
+                            break
+                    if retarget and shape[0] == "TSD" and "modk" in ci:
+                        live = sorted(str(k) for k, ch in (ci.get("ch") or {}).items() if ch.get("v"))
+                        if sorted(map(str, ci["modk"])) != live:
+                            v = ("retarget_not_sampled", "t=%d consumer %d: on retarget modified_keys() reads %s; the new target's valid entries are %s" % (t, c, ci["modk"], live))
+                            break
                     if pv is not None or retarget:
                         if not removed <= pv_keys:
                             stale = sorted(removed - pv_keys)
